@@ -1,5 +1,6 @@
 (** C11 — the two-phase generator of model/ImgIter.v refines the history-level
-    specification model/ImgIterSpec.v; consequences. *)
+    specification model/ImgIterSpec.v (forward simulation, induction over the history);
+    consequences.  Lemmas only; the theorems are restated in props/C11.v. *)
 From Coq Require Import List ZArith Bool Arith Lia.
 Import ListNotations.
 From TI Require Import model.ImgIter model.ImgIterSpec.
@@ -16,30 +17,42 @@ Section Refinement.
   Variable sizes : list Size.          (* the sizes the image takes during the history *)
 
   (** n_frames >= 1; the renderer raises EOFError exactly when asked for frame n_frames
-      (never for a real frame); the size hash separates the sizes that occur *)
+      (never for a real frame); when frames are cached, the size hash separates the sizes
+      that occur *)
   Hypothesis HN : (1 <= N)%nat.
   Hypothesis Heof : forall z, fmt_frame N z = Eof.
   Hypothesis Hnoeof : forall k z, (k < N)%nat -> fmt_frame k z <> Eof.
-  Hypothesis Hinj : forall a b, In a sizes -> In b sizes -> hash a = hash b -> a = b.
+  Hypothesis Hinj : cached = true ->
+    forall a b, In a sizes -> In b sizes -> hash a = hash b -> a = b.
 
   Notation st := (st Str Size).
   Notation sp := (sp Size).
   Notation step := (step fmt_frame hash N cached).
   Notation sstep := (sstep fmt_frame N).
+  Notation p1_run := (p1_run fmt_frame hash N cached).
+  Notation p2_inner := (p2_inner fmt_frame hash N).
+  Notation p2_outer := (p2_outer fmt_frame hash N).
+  Notation produce := (produce fmt_frame).
+  Notation trace := (trace fmt_frame hash N cached).
+  Notation strace := (strace fmt_frame N).
+  Notation run := (run fmt_frame hash N cached).
+  Notation srun := (srun fmt_frame N).
 
   Definition cache_ok (c : list (option (Str * Z))) : Prop :=
     forall k f h, nth k c None = Some (f, h) ->
                   exists z, In z sizes /\ h = hash z /\ fmt_frame k z = Ok f.
 
+  Definition cache_fine (s : st) : Prop := length (cache s) = N /\ cache_ok (cache s).
+
   Definition Inv (s : st) : Prop :=
     In (size s) sizes /\
     match ph s with
-    | P0 => n s = 0 /\ loop_no s = None /\ rep s <> 0
-    | P1 => rep s <> 0 /\ -1 <= n s < Z.of_nat N /\ loop_no s = Some (rep s)
-            /\ (cached = true -> length (cache s) = N /\ cache_ok (cache s))
+    | P0 => n s = 0 /\ loop_no s = None /\ rep s <> 0 /\ img_open s = true
+    | P1 => rep s <> 0 /\ -1 <= n s < Z.of_nat N /\ loop_no s = Some (rep s) /\ img_open s = true
+            /\ (cached = true -> cache_fine s)
     | P2 => cached = true /\ rep s <> 0 /\ -1 <= n s < Z.of_nat N /\ loop_no s = Some (rep s)
-            /\ length (cache s) = N /\ cache_ok (cache s)
-    | PEnd => True
+            /\ img_open s = true /\ cache_fine s
+    | PEnd => img_open s = false
     end.
 
   Definition R (s : st) (a : sp) : Prop :=
@@ -50,6 +63,10 @@ Section Refinement.
                  /\ nxt a = Z.to_nat (n s + 1)
     | PEnd => closed a = true
     end.
+
+  (** the outcomes agree and the successor states are related again *)
+  Definition simres (r : st * outcome Str) (q : sp * outcome Str) : Prop :=
+    snd r = snd q /\ Inv (fst r) /\ R (fst r) (fst q).
 
   (* ---------------------------------------------------------------- cache *)
 
@@ -86,10 +103,336 @@ Section Refinement.
   Proof. intros k f h H. destruct k; discriminate. Qed.
 
   (** a cache hit returns what rendering would return *)
-  Lemma cache_hit : forall c k f h z, cache_ok c -> In z sizes ->
+  Lemma cache_hit : forall c k f h z, cached = true -> cache_ok c -> In z sizes ->
     nth k c None = Some (f, h) -> hash z = h -> fmt_frame k z = Ok f.
   Proof.
-    intros c k f h z Hc Hz Hn Hh. destruct (Hc _ _ _ Hn) as (z' & Hz' & -> & Hf).
-    now rewrite (Hinj Hz Hz' Hh).
+    intros c k f h z Hca Hc Hz Hn Hh. destruct (Hc _ _ _ Hn) as (z' & Hz' & -> & Hf).
+    now rewrite (Hinj Hca Hz Hz' Hh).
   Qed.
+
+  (* ------------------------------------------------- producing one frame *)
+
+  (** the generator is at the head of one of its loops, about to produce frame [n s] *)
+  Definition ready (s : st) : Prop :=
+    rep s <> 0 /\ 0 <= n s < Z.of_nat N /\ loop_no s = Some (rep s) /\ img_open s = true
+    /\ In (size s) sizes.
+
+  Lemma to_nat_lt : forall v, 0 <= v < Z.of_nat N -> (Z.to_nat v < N)%nat.
+  Proof. intros. lia. Qed.
+
+  Lemma p1_lt_sim : forall fuel s a,
+    ready s -> (cached = true -> cache_fine s) -> ssize a = size s ->
+    simres (p1_run fuel s) (produce a (Z.to_nat (n s)) (rep s)).
+  Proof.
+    intros fuel s a (Hr & Hn & Hl & Hio & Hz) Hc Ha.
+    assert (Hk := to_nat_lt Hn).
+    assert (E : p1_run fuel s =
+      match fmt_frame (Z.to_nat (n s)) (size s) with
+      | Ok f => (set_ph (if cached then set_cache (set_pos s (n s))
+                                        (upd (Z.to_nat (n s)) (Some (f, hash (size s))) (cache s))
+                         else set_pos s (n s)) P1, OYield (Z.to_nat (n s)) f)
+      | Eof => p1_run fuel s
+      | Err => raise (set_pos s (n s))
+      end).
+    { destruct fuel; simpl; destruct (rep s =? 0) eqn:E0; try (apply Z.eqb_eq in E0; contradiction);
+        destruct (fmt_frame (Z.to_nat (n s)) (size s)); reflexivity. }
+    rewrite E. clear E. unfold produce. rewrite Ha.
+    destruct (fmt_frame (Z.to_nat (n s)) (size s)) as [f| |] eqn:Ef.
+    - (* a frame *)
+      unfold simres. split; [reflexivity|]. split.
+      + unfold Inv. destruct cached eqn:Ec; simpl.
+        * split; [assumption|]. repeat split; simpl; try lia; try assumption.
+          -- rewrite upd_length. apply Hc; reflexivity.
+          -- apply cache_ok_upd; auto. apply Hc; reflexivity.
+        * split; [assumption|]. repeat split; try lia; try assumption; discriminate.
+      + unfold R. destruct cached; simpl; repeat split; try lia; try congruence.
+    - exfalso. exact (Hnoeof Hk Ef).
+    - (* the renderer fails: the iterator closes *)
+      unfold simres, raise. simpl. split; [reflexivity|]. split.
+      + unfold Inv. simpl. auto.
+      + unfold R. simpl. repeat split; try lia; congruence.
+  Qed.
+
+  Lemma p2_lt_sim : forall fuel s a,
+    cached = true -> ready s -> cache_fine s -> ssize a = size s ->
+    simres (p2_inner fuel s) (produce a (Z.to_nat (n s)) (rep s)).
+  Proof.
+    intros fuel s a Hca (Hr & Hn & Hl & Hio & Hz) (Hlen & Hok) Ha.
+    assert (Hk := to_nat_lt Hn).
+    set (k := Z.to_nat (n s)) in *.
+    set (rer := match fmt_frame k (size s) with
+                | Ok f => (set_ph (set_cache (set_pos s (n s)) (upd k (Some (f, hash (size s))) (cache s))) P2,
+                           OYield k f)
+                | _ => raise (set_pos s (n s))
+                end).
+    assert (E : p2_inner fuel s =
+      match nth k (cache s) None with
+      | Some (f, h) => if Z.eqb (hash (size s)) h then (set_ph (set_pos s (n s)) P2, OYield k f) else rer
+      | None => rer
+      end).
+    { destruct fuel; simpl; destruct (n s <? Z.of_nat N) eqn:E0; try (apply Z.ltb_ge in E0; lia); reflexivity. }
+    rewrite E. clear E.
+    assert (Hrer : simres rer (produce a k (rep s))).
+    { unfold rer, produce. rewrite Ha.
+      destruct (fmt_frame k (size s)) as [f| |] eqn:Ef.
+      - unfold simres. split; [reflexivity|]. split.
+        + unfold Inv. simpl. split; [assumption|]. repeat split; simpl; try lia; try assumption.
+          * rewrite upd_length. assumption.
+          * apply cache_ok_upd; auto.
+        + unfold R. simpl. repeat split; try lia; try congruence.
+      - exfalso. exact (Hnoeof Hk Ef).
+      - unfold simres, raise. simpl. split; [reflexivity|]. split.
+        + unfold Inv. simpl. auto.
+        + unfold R. simpl. repeat split; try lia; congruence. }
+    destruct (nth k (cache s) None) as [[f h]|] eqn:En; [|exact Hrer].
+    destruct (Z.eqb (hash (size s)) h) eqn:Eh; [|exact Hrer].
+    apply Z.eqb_eq in Eh.
+    (* a cache hit: the stored frame is what rendering at the current size gives *)
+    assert (Hf : fmt_frame k (size s) = Ok f) by (eapply cache_hit; eauto).
+    unfold produce. rewrite Ha, Hf. unfold simres. split; [reflexivity|]. split.
+    - unfold Inv. simpl. split; [assumption|]. repeat split; try lia; assumption.
+    - unfold R. simpl. repeat split; try lia; congruence.
+  Qed.
+
+  (* --------------------------------------------------- the end of a pass *)
+
+  (** the state after the end-of-pass bookkeeping (2168-2170 / 2198-2200) *)
+  Lemma wrap_fields : forall s : st,
+    n (wrap s) = 0 /\ pos (wrap s) = 0 /\ size (wrap s) = size s /\ cache (wrap s) = cache s
+    /\ img_open (wrap s) = img_open s /\ ph (wrap s) = ph s
+    /\ rep (wrap s) = (if 0 <? rep s then rep s - 1 else rep s)
+    /\ (loop_no s = Some (rep s) -> loop_no (wrap s) = Some (rep (wrap s))).
+  Proof.
+    intros s. unfold wrap. simpl. repeat split; auto.
+    intros H. destruct (0 <? rep s); auto.
+  Qed.
+
+  Definition stop_state (a : sp) : sp :=
+    {| started := true; closed := true; nxt := 0; left := 0; spos := 0; ssize := ssize a;
+       sloop := Some 0 |}.
+
+  Lemma finish_sim : forall s a,
+    rep s = 0 -> pos s = 0 -> loop_no s = Some 0 -> ssize a = size s -> In (size s) sizes ->
+    simres (finish s) (stop_state a, OStop).
+  Proof.
+    intros s a Hr Hp Hl Ha Hz. unfold simres, finish, stop_state. simpl. split; [reflexivity|]. split.
+    - unfold Inv. simpl. auto.
+    - unfold R. simpl. repeat split; congruence.
+  Qed.
+
+  (** what the specification does on [Next] when the pass is over *)
+  Lemma sstep_next_wrap : forall a : sp,
+    closed a = false -> nxt a = N ->
+    sstep a Next =
+      let l := if 0 <? left a then left a - 1 else left a in
+      if l =? 0 then ({| started := true; closed := true; nxt := 0; left := l; spos := 0;
+                         ssize := ssize a; sloop := Some l |}, OStop)
+      else produce a 0%nat l.
+  Proof.
+    intros a Hc Hn. unfold ImgIterSpec.sstep. rewrite Hc, Hn.
+    rewrite Nat.ltb_irrefl. reflexivity.
+  Qed.
+
+  Lemma sstep_next_lt : forall a : sp,
+    closed a = false -> (nxt a < N)%nat -> sstep a Next = produce a (nxt a) (left a).
+  Proof.
+    intros a Hc Hn. unfold ImgIterSpec.sstep. rewrite Hc.
+    apply Nat.ltb_lt in Hn. rewrite Hn. reflexivity.
+  Qed.
+
+  (** first loop, the renderer has just raised EOFError at frame [N] *)
+  Lemma p1_eof_sim : forall fuel s a,
+    rep s <> 0 -> n s = Z.of_nat N -> loop_no s = Some (rep s) -> img_open s = true ->
+    In (size s) sizes -> (cached = true -> cache_fine s) ->
+    ssize a = size s -> closed a = false -> nxt a = N -> left a = rep s ->
+    simres (p1_run (S fuel) s) (sstep a Next).
+  Proof.
+    intros fuel s a Hr Hn Hl Hio Hz Hc Ha Hcl Hnx Hle.
+    rewrite sstep_next_wrap by assumption. cbv zeta. rewrite Hle.
+    simpl. destruct (rep s =? 0) eqn:E0; [apply Z.eqb_eq in E0; contradiction|].
+    rewrite Hn, Nat2Z.id, Heof.
+    set (s1 := set_pos s (Z.of_nat N)).
+    destruct (wrap_fields s1) as (Wn & Wp & Wz & Wc & Wio & Wph & Wr & Wl).
+    assert (Hl1 : loop_no s1 = Some (rep s1)) by exact Hl.
+    specialize (Wl Hl1). change (rep s1) with (rep s) in Wr.
+    change (size s1) with (size s) in Wz. change (cache s1) with (cache s) in Wc.
+    change (img_open s1) with (img_open s) in Wio.
+    rewrite <- Wr.
+    assert (Hready : rep (wrap s1) <> 0 -> ready (wrap s1)).
+    { intros H. unfold ready. rewrite Wn, Wz, Wio. repeat split; try assumption; lia. }
+    assert (Hfin : rep (wrap s1) = 0 -> simres (finish (wrap s1))
+              ({| started := true; closed := true; nxt := 0; left := rep (wrap s1); spos := 0;
+                  ssize := ssize a; sloop := Some (rep (wrap s1)) |}, OStop)).
+    { intros H. rewrite H. apply finish_sim; try congruence. }
+    destruct (Bool.bool_dec cached true) as [Eca|Eca]; [|apply not_true_is_false in Eca].
+    - (* break: second loop *)
+      match goal with |- context [if cached then ?X else ?Y] =>
+        replace (if cached then X else Y) with X by (rewrite Eca; reflexivity) end.
+      unfold ImgIter.p2_outer. destruct (rep (wrap s1) =? 0) eqn:E1.
+      + apply Z.eqb_eq in E1. apply Hfin; assumption.
+      + apply Z.eqb_neq in E1.
+        replace 0%nat with (Z.to_nat (n (wrap s1))) by (rewrite Wn; reflexivity).
+        apply p2_lt_sim; auto; try congruence.
+        unfold cache_fine. rewrite Wc. apply Hc; reflexivity.
+    - (* continue: first loop again *)
+      match goal with |- context [if cached then ?X else ?Y] =>
+        replace (if cached then X else Y) with Y by (rewrite Eca; reflexivity) end.
+      assert (E : p1_run fuel (wrap s1) =
+                  if rep (wrap s1) =? 0 then finish (wrap s1) else p1_run fuel (wrap s1)).
+      { destruct fuel; simpl; destruct (_ =? 0); reflexivity. }
+      rewrite E. clear E.
+      destruct (rep (wrap s1) =? 0) eqn:E1.
+      + apply Z.eqb_eq in E1. apply Hfin; assumption.
+      + apply Z.eqb_neq in E1.
+        replace 0%nat with (Z.to_nat (n (wrap s1))) by (rewrite Wn; reflexivity).
+        apply p1_lt_sim; auto; try congruence. intros Hca. congruence.
+  Qed.
+
+  (** second loop, past the last frame *)
+  Lemma p2_end_sim : forall fuel s a,
+    cached = true -> rep s <> 0 -> n s = Z.of_nat N -> loop_no s = Some (rep s) -> img_open s = true ->
+    In (size s) sizes -> cache_fine s ->
+    ssize a = size s -> closed a = false -> nxt a = N -> left a = rep s ->
+    simres (p2_inner (S fuel) s) (sstep a Next).
+  Proof.
+    intros fuel s a Hca Hr Hn Hl Hio Hz Hc Ha Hcl Hnx Hle.
+    rewrite sstep_next_wrap by assumption. cbv zeta. rewrite Hle.
+    simpl. destruct (n s <? Z.of_nat N) eqn:E0; [apply Z.ltb_lt in E0; lia|].
+    destruct (wrap_fields s) as (Wn & Wp & Wz & Wc & Wio & Wph & Wr & Wl).
+    specialize (Wl Hl). rewrite <- Wr.
+    destruct (rep (wrap s) =? 0) eqn:E1.
+    - apply Z.eqb_eq in E1. rewrite E1. apply finish_sim; congruence.
+    - apply Z.eqb_neq in E1.
+      replace 0%nat with (Z.to_nat (n (wrap s))) by (rewrite Wn; reflexivity).
+      apply p2_lt_sim; auto.
+      + unfold ready. rewrite Wn, Wz, Wio. repeat split; try assumption; lia.
+      + unfold cache_fine. rewrite Wc. exact Hc.
+      + congruence.
+  Qed.
+
+  (* -------------------------------------------------------- one operation *)
+
+  Definition op_ok (o : op Size) : Prop :=
+    match o with SetImageSize z => In z sizes | _ => True end.
+
+  Lemma fuel_of_S : forall s : st, exists fu, fuel_of s = S fu.
+  Proof. intros s. unfold fuel_of. eauto. Qed.
+
+  Lemma step_sim : forall s a o, Inv s -> R s a -> op_ok o -> simres (step s o) (sstep a o).
+  Proof.
+    intros s a o (Hz & HI) (Rp & Rz & Rl & RR) Hok.
+    destruct o as [|p| | |z].
+    - (* Next *)
+      unfold ImgIter.step. destruct (ph s) eqn:Eph.
+      + (* not started: 2151-2159 *)
+        destruct HI as (Hn & Hl & Hr & Hio). destruct RR as (Rs & Rc & Rle & Rn).
+        rewrite sstep_next_lt by (try assumption; lia). rewrite Rn, Rle.
+        match goal with |- simres (p1_run ?f ?s0) _ => set (s0' := s0); set (f0 := f) end.
+        replace 0%nat with (Z.to_nat (n s0')) by reflexivity.
+        change (rep s) with (rep s0').
+        apply p1_lt_sim.
+        * unfold ready, s0'. simpl. repeat split; try assumption; lia.
+        * intros Hca. unfold cache_fine, s0'. simpl. rewrite Hca. split.
+          -- apply repeat_length.
+          -- apply cache_ok_repeat.
+        * exact Rz.
+      + (* first loop *)
+        destruct HI as (Hr & Hn & Hl & Hio & Hc). destruct RR as (Rs & Rc & Rle & Rn).
+        destruct (fuel_of_S (set_n s (n s + 1))) as (fu & ->).
+        destruct (Z.eq_dec (n s + 1) (Z.of_nat N)) as [E|E].
+        * apply p1_eof_sim; simpl; auto. rewrite Rn, E. apply Nat2Z.id.
+        * rewrite sstep_next_lt by (try assumption; lia). rewrite Rn, Rle.
+          change (n s + 1) with (n (set_n s (n s + 1))) at 2.
+          change (rep s) with (rep (set_n s (n s + 1))).
+          apply p1_lt_sim; simpl; auto.
+          unfold ready. simpl. repeat split; try assumption; lia.
+      + (* second loop *)
+        destruct HI as (Hca & Hr & Hn & Hl & Hio & Hc). destruct RR as (Rs & Rc & Rle & Rn).
+        destruct (fuel_of_S (set_n s (n s + 1))) as (fu & ->).
+        destruct (Z.eq_dec (n s + 1) (Z.of_nat N)) as [E|E].
+        * apply p2_end_sim; simpl; auto. rewrite Rn, E. apply Nat2Z.id.
+        * rewrite sstep_next_lt by (try assumption; lia). rewrite Rn, Rle.
+          change (n s + 1) with (n (set_n s (n s + 1))) at 2.
+          change (rep s) with (rep (set_n s (n s + 1))).
+          apply p2_lt_sim; simpl; auto.
+          unfold ready. simpl. repeat split; try assumption; lia.
+      + (* exhausted or closed *)
+        unfold ImgIterSpec.sstep. rewrite RR. unfold simres. simpl. split; [reflexivity|]. split.
+        * unfold Inv. rewrite Eph. auto.
+        * unfold R. rewrite Eph. auto.
+    - (* Seek *)
+      unfold ImgIter.step, ImgIterSpec.sstep.
+      destruct (negb ((0 <=? p) && (p <? Z.of_nat N))) eqn:Erange.
+      + unfold simres. simpl. split; [reflexivity|]. split; [split; assumption|].
+        unfold R. auto.
+      + apply negb_false_iff, andb_true_iff in Erange. destruct Erange as (E1 & E2).
+        apply Z.leb_le in E1. apply Z.ltb_lt in E2.
+        destruct (ph s) eqn:Eph.
+        * destruct RR as (Rs & Rc & Rle & Rn). rewrite Rc, Rs.
+          unfold simres. simpl. split; [reflexivity|]. split.
+          -- unfold Inv. rewrite Eph. auto.
+          -- unfold R. rewrite Eph. auto.
+        * destruct HI as (Hr & Hn & Hl & Hio & Hc). destruct RR as (Rs & Rc & Rle & Rn).
+          rewrite Rc, Rs. unfold simres. simpl. split; [reflexivity|]. split.
+          -- unfold Inv. simpl. rewrite Eph. split; [assumption|]. repeat split; try assumption; lia.
+          -- unfold R. simpl. rewrite Eph. repeat split; try assumption. f_equal. lia.
+        * destruct HI as (Hca & Hr & Hn & Hl & Hio & Hc). destruct RR as (Rs & Rc & Rle & Rn).
+          rewrite Rc, Rs. unfold simres. simpl. split; [reflexivity|]. split.
+          -- unfold Inv. simpl. rewrite Eph. split; [assumption|]. repeat split; try assumption; lia.
+          -- unfold R. simpl. rewrite Eph. repeat split; try assumption. f_equal. lia.
+        * rewrite RR. unfold simres. simpl. split; [reflexivity|]. split.
+          -- unfold Inv. rewrite Eph. auto.
+          -- unfold R. rewrite Eph. auto.
+    - (* Close *)
+      unfold simres. simpl. split; [reflexivity|]. split.
+      + unfold Inv. simpl. auto.
+      + unfold R. simpl. auto.
+    - (* Drop *)
+      unfold simres. simpl. split; [reflexivity|]. split.
+      + unfold Inv. simpl. auto.
+      + unfold R. simpl. auto.
+    - (* the image's size is changed *)
+      unfold simres. simpl. split; [reflexivity|]. split.
+      + unfold Inv. simpl. split; [exact Hok|]. destruct (ph s); auto.
+      + unfold R. simpl. repeat split; try assumption. destruct (ph s); auto.
+  Qed.
+
+  (* -------------------------------------------------------- all histories *)
+
+  Lemma Inv_img_open : forall s a, Inv s -> R s a -> img_open s = negb (closed a).
+  Proof.
+    intros s a (_ & HI) (_ & _ & _ & RR). destruct (ph s).
+    - destruct HI as (_ & _ & _ & ->). destruct RR as (_ & -> & _). reflexivity.
+    - destruct HI as (_ & _ & _ & -> & _). destruct RR as (_ & -> & _). reflexivity.
+    - destruct HI as (_ & _ & _ & _ & -> & _). destruct RR as (_ & -> & _). reflexivity.
+    - rewrite HI, RR. reflexivity.
+  Qed.
+
+  Lemma trace_sim : forall ops s a, Inv s -> R s a -> Forall op_ok ops -> trace s ops = strace a ops.
+  Proof.
+    induction ops as [|o ops IH]; intros s a HI HR Hok; [reflexivity|].
+    inversion Hok as [|? ? Ho Hops]; subst.
+    pose proof (step_sim o HI HR Ho) as (Hout & HI' & HR').
+    simpl. destruct (step s o) as [s1 x]. destruct (sstep a o) as [a1 y]. simpl in *.
+    subst y. destruct HR' as (Hp & Hsz & Hl & HRR).
+    rewrite (Inv_img_open HI' (conj Hp (conj Hsz (conj Hl HRR)))), Hp, Hl.
+    f_equal. apply IH; auto. repeat split; assumption.
+  Qed.
+
+  Lemma run_sim : forall ops s a, Inv s -> R s a -> Forall op_ok ops ->
+    Inv (fst (run s ops)) /\ R (fst (run s ops)) (srun a ops).
+  Proof.
+    induction ops as [|o ops IH]; intros s a HI HR Hok; [simpl; auto|].
+    inversion Hok as [|? ? Ho Hops]; subst.
+    pose proof (step_sim o HI HR Ho) as (Hout & HI' & HR').
+    simpl. destruct (step s o) as [s1 x]. simpl in *.
+    specialize (IH s1 (fst (sstep a o)) HI' HR' Hops).
+    destruct (run s1 ops) as [s2 xs]. exact IH.
+  Qed.
+
+  Lemma init_Inv : forall repeat pos0 z, repeat <> 0 -> In z sizes -> Inv (init Str repeat pos0 z).
+  Proof. intros. unfold Inv, init. simpl. auto. Qed.
+
+  Lemma init_R : forall repeat pos0 z, R (init Str repeat pos0 z) (sinit repeat pos0 z).
+  Proof. intros. unfold R, init, sinit. simpl. auto 10. Qed.
 End Refinement.
